@@ -1,9 +1,9 @@
 package main
 
 import (
-	"regexp"
 	"encoding/hex"
 	"fmt"
+	"regexp"
 	"strings"
 
 	"github.com/preslavrachev/gomjml/mjml"
